@@ -142,3 +142,8 @@ package schemas
 //@ func QualifiedFileName@environment
 //@   props C12
 //@   envdep Dir EvalSymlinks: a relative reference is resolved against the referring document's directory and through symlinks; the path is used to read the file, only its content reaches the output
+
+// ---- the state that outlives one document (loader) -------------------------------
+//@ func NewCachedLoader@state
+//@   props C10 C20 C12
+//@   collections CachedLoader: cache
